@@ -117,6 +117,29 @@ func (s Str) String() string {
 	return sb.String()
 }
 
+// UStr is a string chosen from a finite alphabet by a symbolic selector
+// (Alt[Sel]). Equality and len are computed on the selector; any operation
+// that needs bytes forces it (the path forks once per alternative).
+type UStr struct {
+	Alt []string
+	Sel *Term // 8-bit, < len(Alt)
+}
+
+func ustrEqStr(u UStr, s Str) *Term {
+	r := FalseT
+	for i, a := range u.Alt {
+		if len(a) != s.Len() {
+			continue
+		}
+		e := eqTerm(Str{S: a}, s)
+		if e.IsFalse() {
+			continue
+		}
+		r = Or(r, And(Eq(u.Sel, BV(8, uint64(i))), e))
+	}
+	return r
+}
+
 type Iface struct {
 	T types.Type
 	V Value
@@ -383,7 +406,26 @@ func eqTerm(a, b Value) *Term {
 	switch a := a.(type) {
 	case *Term:
 		return Eq(a, b.(*Term))
+	case UStr:
+		switch bv := b.(type) {
+		case Str:
+			return ustrEqStr(a, bv)
+		case UStr:
+			r := FalseT
+			for i, x := range a.Alt {
+				for j, y := range bv.Alt {
+					if x == y {
+						r = Or(r, And(Eq(a.Sel, BV(8, uint64(i))), Eq(bv.Sel, BV(8, uint64(j)))))
+					}
+				}
+			}
+			return r
+		}
+		panic("eqTerm: UStr vs non-string")
 	case Str:
+		if bu, ok := b.(UStr); ok {
+			return ustrEqStr(bu, a)
+		}
 		bs := b.(Str)
 		if a.Len() != bs.Len() {
 			return FalseT
@@ -499,6 +541,8 @@ func describeD(v Value, d int) string {
 		return s
 	case Str:
 		return fmt.Sprintf("%q", v.String())
+	case UStr:
+		return fmt.Sprintf("one-of%q", v.Alt)
 	case float64:
 		return fmt.Sprint(v)
 	case Struct:
